@@ -529,12 +529,46 @@ def suite_by_name(name):
     return next(s for s in SUITES if s.name == name)
 
 
+def order_tie_replay(r):
+    """The witness of C11_precursor_order_matters_on_full_key_ties on the real code: two rows that tie on the whole sort key (peptide,
+    charge, experiment, fraction, intensity, PEP) and differ in their SILAC channels, in both orders - plus a control in which the
+    two rows differ in their PEP (the key separates them: C11_precursor_order_invariant applies, the order must not matter)."""
+    from picked_group_fdr.columns import lfq
+    from picked_group_fdr.precursor_quant import PrecursorQuant as PQ
+
+    def run(peps, order):
+        rows = [PQ("PEPA", 2, "E1", "1", 3.0, peps[0], None, np.array([1.0, 2.0]), 0),
+                PQ("PEPA", 2, "E1", "1", 3.0, peps[1], None, np.array([2.0, 1.0]), 1),
+                PQ("PEPA", 2, "E2", "1", 4.0, 0.01, None, np.array([2.0, 2.0]), 2)]
+        pi, tot = lfq._getPeptideIntensities([rows[i] for i in order], {"E1": 0, "E2": 1}, 1.0, 2, 4)
+        return {f"{k[0]}/{k[1]}": [float(x) for x in v] for k, v in pi.items()}, float(tot)
+    n = 0
+    for label, peps in (("full-key tie", (0.01, 0.01)), ("PEPs differ", (0.01, 0.02))):
+        a, b = run(peps, [0, 1, 2]), run(peps, [1, 0, 2])
+        n += 2
+        if a == b:
+            continue
+        data = {"suite": "order_tie_replay", "rows": label, "first_order": a, "second_order": b}
+        if label == "full-key tie":
+            kf = r.match_finding("lfq-precursor-order-full-key-tie-silac")
+            if kf is not None:
+                msg = f"KNOWN-FINDING: property={r.pid} {kf['what']}"
+                if msg not in r.known_hits:
+                    r.known_hits.append(msg)
+                continue
+        r.violation("property-failure", data, True,
+                    f"order_tie_replay ({label}): the peptide-intensity matrix depends on the order of the precursor list")
+    return n
+
+
 def run(r: core.Runner):
+    r.traces = (r.traces or 0) + order_tie_replay(r)
     r.assumptions += [
         "np.log / np.exp / float division / bottleneck.nanmedian / scipy lsqr are outside the model: medians are compared to 1e-13, "
         "log values through a tabulated ln to 1e-11, the least-squares answer through its normal equations to 1e-3 (lsqr tolerances 1e-6)",
-        "intensities on an integer grid (float sums exact); precursors with equal intensity in one (peptide, charge, sample, fraction) cell "
-        "carry equal SILAC vectors",
+        "intensities on an integer grid (float sums exact); in the RANDOM inputs precursors with equal intensity in one (peptide, charge, "
+        "sample, fraction) cell carry equal SILAC vectors (the proviso of C11_precursor_order_invariant; what happens without it is "
+        "the open finding D16, replayed by order_tie_replay)",
     ]
     for s in SUITES:
         r.run_suite(s, max_report=2)
